@@ -6,6 +6,7 @@
   the code before the repair F21.
 -/
 import Hagall.Model.Attach
+import Hagall.Model.Handover
 namespace Hagall.Props.C01Conc
 open Hagall.Attach
 
@@ -75,5 +76,30 @@ example : let s := run false {} [.setter 5, .owner, .setter 5, .owner, .setter 5
 theorem C01_old_order_keeps_a_stale_action :
     let s := run true {} [.owner, .setter 5, .setter 5, .owner]
     s.owner = 2 ∧ s.setter 5 = .idle ∧ s.there = false ∧ s.action = true := by decide
+
+/-! ### a newcomer against an owner's departure (F23) -/
+
+open Hagall.Handover in
+/-- the list above is every merge of the two sequences: 10 = 5! / (3! 2!) lists, each a permutation of the five steps that
+    keeps O1 before O2 and N1 before N2 before N3 -/
+theorem interleavings_complete :
+    interleavings.length = 10 ∧ interleavings.Nodup ∧
+    ∀ l ∈ interleavings, l.length = 5 ∧ l.filter (fun x => x == .O1 || x == .O2) = [.O1, .O2] ∧
+      l.filter (fun x => x == .N1 || x == .N2 || x == .N3) = [.N1, .N2, .N3] := by decide
+
+open Hagall.Handover in
+/-- **What a newcomer holds is consistent, whatever the interleaving with the owner's departure**: in the end the entity
+    is gone from the session, the module holds no action of it, and the newcomer's view has neither the entity nor an
+    action of it. -/
+theorem C01_conc_newcomer_consistent :
+    ∀ l ∈ interleavings, (run true l).there = false ∧ (run true l).action = false ∧
+      (run true l).hasEnt = false ∧ (run true l).hasAct = false := by decide
+
+open Hagall.Handover in
+/-- **Before the repair (F23)**: the entity is removed, the participant joins and is handed the module's state before the
+    module has released the action: its view keeps an action of an entity that does not exist, and nothing will tell it. -/
+theorem C01_old_handover_leaves_a_stale_action :
+    (run false [.O1, .N1, .N2, .N3, .O2]).hasAct = true ∧ (run false [.O1, .N1, .N2, .N3, .O2]).hasEnt = false ∧
+    (run false [.O1, .N1, .N2, .N3, .O2]).action = false := by decide
 
 end Hagall.Props.C01Conc
